@@ -31,6 +31,7 @@ func init() {
 			{"C06.R8", "q", "a fatal log line stops the process", c06r8},
 			{"C14.R3", "q", "shared: seek/offset pairing of the stream reader used by the rebuild", c14r3},
 			{"C09.R9", "q", "shared: resynchronisation probes every block up to the file end", c09r9},
+			{"C04.L3", "q", "shared: rotation decisions under the data store lock", c04l3},
 		},
 	})
 }
